@@ -450,7 +450,216 @@ fn generate(seed: u64, n_cases: usize, tier: &str) {
             }
         }
     }
+    domain_family(&mut out, seed, n_cases, tier);
     out.flush();
+}
+
+// ---------------------------------------------------------------- input-domain family (`d..` cases)
+//
+// Separately seeded, appended after the random cases (which stay exactly as they were): input classes
+// of the public API the random cases above never produce. One class per case, cycled by case number:
+//   0 signed fees   (engine) maker REBATES (negative `Trade.fees`) on either fill, a fee that offsets the
+//                   gross PnL exactly (break-even through fees), a fee larger than the gross win; 12 % of
+//                   the fills carry a NEGATIVE `Trade.quantity` (the position manager uses its magnitude)
+//   1 long direct   100-160 (thorough -300) closed positions, most on ONE instrument, incl. immediate
+//                   duplicates of the previous position
+//   2 long engine   60-100 (thorough -160) round trips / flips
+//   3 magnitudes    (direct) per instrument one exact extreme regime: entry 1e-8 x size 1e12, entry 1e12
+//                   x size 1e-8, cost 1e-16 with PnL ~1e-17, cost 1e18 with PnL ~1e16
+//   4 magnitudes    (engine) the first two regimes as fills, fees incl. rebates
+//   5 odd balances  negative totals (margin), free > total, free < 0, zero, negative / far exchange
+//                   times, equal and stale ones right after; few positions
+//   6 wide / empty  0 instruments (empty summary) or 4-6 instruments (10+ keys: `b1..` / `b10` prefixes
+//                   do not occur, but index order != name order over > 3 entries)
+//   7 signs of cost (direct) negative `quantity_abs_max`, negative entry, both (cost positive again),
+//                   with wins, losses and break-evens on each; same values on two instruments
+
+fn signed(rng: &mut Rng, m: i64, scale: u32) -> String {
+    dec_str(if rng.chance(50) { -m } else { m }, scale)
+}
+
+fn dom_fee_rt(rng: &mut Rng, n: usize, entries: &[&str], qtys: &[&str]) -> String {
+    let i = rng.below(n as u64);
+    let entry = parse_dec(*rng.pick(entries));
+    let qty = parse_dec(*rng.pick(qtys));
+    let side = *rng.pick(&["B", "S"]);
+    let unit = Decimal::new(1, entry.scale().max(1));
+    let step = Decimal::from(*rng.pick(&[0i64, 1, 1, 2, 5, -1, -1, -3])) * unit;
+    let mut exit = if side == "B" { entry + step } else { entry - step };
+    if exit <= Decimal::ZERO {
+        exit = entry;
+    }
+    let gross = if side == "B" { (exit - entry) * qty } else { (entry - exit) * qty };
+    let fee = |rng: &mut Rng| -> Decimal {
+        Decimal::new(*rng.pick(&[-50i64, -20, -10, -1, 0, 1, 10, 25, 50]), 2)
+    };
+    let flip = rng.chance(25);
+    let fee_in = fee(rng);
+    let fee_out = match rng.below(4) {
+        // exactly break-even through the fees (a rebate when the gross PnL is a loss)
+        0 if !flip => gross - fee_in,
+        // the fees eat more than the gross win / a rebate larger than the gross loss
+        1 if !flip => gross - fee_in + Decimal::new(*rng.pick(&[-1i64, 1]), 2),
+        _ => fee(rng),
+    };
+    // `Trade.quantity` is a signed Decimal of which the position manager takes the absolute value
+    let qty = if rng.chance(12) { -qty } else { qty };
+    format!(
+        "{} {i} {side} {} {} {} {} {}",
+        if flip { "flip" } else { "rt" },
+        entry.normalize(),
+        qty.normalize(),
+        exit.normalize(),
+        fee_in.normalize(),
+        fee_out.normalize()
+    )
+}
+
+/// (entry, size, unit of PnL) per exact extreme regime: PnL = k * unit, k a small integer, so that the
+/// running PnL and the running sum of returns stay exact `Decimal`s
+const REGIMES: [(&[&str], &[&str], &str); 4] = [
+    (&["0.00000001", "0.00000125"], &["1000000000000", "250000000000"], "0.01"),
+    (&["1000000000000", "999999999999.5"], &["0.00000001", "0.00000025"], "0.01"),
+    (&["0.00000001", "0.00000004"], &["0.00000001", "0.00000005"], "0.00000000000000001"),
+    (&["1000000000000", "250000000000"], &["1000000", "4000000"], "10000000000000000"),
+];
+
+fn domain_family(out: &mut Out, seed: u64, n_cases: usize, tier: &str) {
+    let mut rng = Rng::new(seed ^ 0xD0_16_D0_16);
+    let thorough = tier == "thorough";
+    let count = (n_cases / 8).max(8);
+    for j in 0..count {
+        out.case(format!("d{}", j + 1));
+        let class = j % 8;
+        match class {
+            0 => {
+                let n = rng.range(1, 3) as usize;
+                out.line(format!("init {n} {} engine", n_assets(n)));
+                for _ in 0..rng.range(1, 25) {
+                    out.line(dom_fee_rt(&mut rng, n, &["100", "50", "0.5", "12.5", "33"], &["1", "0.5", "2", "10", "3"]));
+                }
+            }
+            1 | 2 => {
+                let n = rng.range(1, 2) as usize;
+                let engine = class == 2;
+                out.line(format!("init {n} {} {}", n_assets(n), if engine { "engine" } else { "direct" }));
+                let len = if engine {
+                    rng.range(60, if thorough { 160 } else { 100 })
+                } else {
+                    rng.range(100, if thorough { 300 } else { 160 })
+                };
+                let bias = *rng.pick(&[0u64, 0, 1, 2, 3]);
+                let mut prev: Option<String> = None;
+                for _ in 0..len {
+                    // the second instrument gets one position in ten
+                    let k = if rng.chance(10) { n } else { 1 };
+                    let line = if engine {
+                        gen_rt(&mut rng, k, bias)
+                    } else if prev.is_some() && rng.chance(10) {
+                        prev.clone().unwrap()
+                    } else {
+                        gen_pos(&mut rng, k, bias)
+                    };
+                    prev = Some(line.clone());
+                    out.line(line);
+                }
+            }
+            3 => {
+                let n = rng.range(1, 3) as usize;
+                out.line(format!("init {n} {} direct", n_assets(n)));
+                let base = rng.below(4) as usize;
+                for _ in 0..rng.range(1, 30) {
+                    let i = rng.below(n as u64) as usize;
+                    let (entries, qtys, unit) = REGIMES[(base + i) % 4];
+                    let k = *rng.pick(&[0i64, 1, 1, 2, 7, 25, 120, 12345, -1, -1, -3, -25, -333, -12345]);
+                    let pnl = Decimal::from(k) * parse_dec(unit);
+                    out.line(format!("pos {i} {} {} {}", pnl.normalize(), rng.pick(entries), rng.pick(qtys)));
+                }
+            }
+            4 => {
+                let n = rng.range(1, 2) as usize;
+                out.line(format!("init {n} {} engine", n_assets(n)));
+                let base = rng.below(2) as usize;
+                for _ in 0..rng.range(1, 20) {
+                    let i = rng.below(n as u64) as usize;
+                    let (entries, qtys, _) = REGIMES[(base + i) % 2];
+                    let line = dom_fee_rt(&mut rng, 1, entries, qtys);
+                    // dom_fee_rt drew instrument 0: re-address
+                    let mut t: Vec<String> = line.split(' ').map(|s| s.to_string()).collect();
+                    t[1] = i.to_string();
+                    out.line(t.join(" "));
+                }
+            }
+            5 => {
+                let n = rng.range(1, 3) as usize;
+                let m = n_assets(n);
+                let engine = rng.chance(50);
+                out.line(format!("init {n} {m} {}", if engine { "engine" } else { "direct" }));
+                let mut t: i64 = *rng.pick(&[-5000i64, -1, 0, 1_700_000_000_000]);
+                for _ in 0..rng.range(2, 25) {
+                    if rng.chance(15) {
+                        out.line(if engine { gen_rt(&mut rng, n, 0) } else { gen_pos(&mut rng, n, 0) });
+                        continue;
+                    }
+                    let a = rng.below(m as u64);
+                    t += *rng.pick(&[0i64, 0, -1, -3, 1, 1, 2, 1000, -1000]);
+                    let total = match rng.below(5) {
+                        0 => "0".to_string(),
+                        1 | 2 => dec_str(-rng.range(1, 500), 1),
+                        _ => dec_str(rng.range(1, 500), 1),
+                    };
+                    let free = match rng.below(5) {
+                        0 => total.clone(),
+                        1 => "0".to_string(),
+                        2 => dec_str(-rng.range(1, 500), 1),
+                        _ => dec_str(rng.range(0, 900), 1),
+                    };
+                    out.line(format!("bal {a} {t} {total} {free}"));
+                }
+            }
+            6 => {
+                let n = *rng.pick(&[0usize, 4, 5, 6]);
+                let m = n_assets(n);
+                let engine = rng.chance(50);
+                out.line(format!("init {n} {m} {}", if engine { "engine" } else { "direct" }));
+                if n > 0 {
+                    let mut clock = 0i64;
+                    for _ in 0..rng.range(0, 30) {
+                        if rng.chance(20) {
+                            out.line(gen_bal(&mut rng, m, &mut clock));
+                        } else if engine {
+                            out.line(gen_rt(&mut rng, n, 0));
+                        } else {
+                            out.line(gen_pos(&mut rng, n, 0));
+                        }
+                    }
+                }
+            }
+            _ => {
+                let n = rng.range(2, 3) as usize;
+                out.line(format!("init {n} {} direct", n_assets(n)));
+                for _ in 0..rng.range(2, 20) {
+                    let i = rng.below(n as u64);
+                    let (em, es) = *rng.pick(&ENTRIES);
+                    let (qm, qs) = *rng.pick(&QTYS);
+                    let pnl = match rng.below(3) {
+                        0 => "0".to_string(),
+                        _ => {
+                            let mag = *rng.pick(&[1i64, 5, 25, 120]);
+                            signed(&mut rng, mag, 1)
+                        }
+                    };
+                    let (se, sq) = *rng.pick(&[(1i64, -1i64), (-1, 1), (-1, -1), (1, -1)]);
+                    let line = format!("{pnl} {} {}", dec_str(se * em, es), dec_str(sq * qm, qs));
+                    out.line(format!("pos {i} {line}"));
+                    // the same closed position on another instrument: entries must not be mixed up
+                    if rng.chance(30) {
+                        out.line(format!("pos {} {line}", (i + 1) % n as u64));
+                    }
+                }
+            }
+        }
+    }
 }
 
 fn main() {
